@@ -25,8 +25,8 @@ import (
 	"verifharness/tlc"
 )
 
-const SpecDir = "/verif/specs/shape"
-const TaskBin = "/verif/.work/bin/task"
+var SpecDir = rep.Root + "/specs/shape"
+var TaskBin = rep.Root + "/.work/bin/task"
 
 type Dev struct{ Pos, Kind string }
 type Doc struct {
